@@ -39,6 +39,10 @@ def handleExpect (j : Json) : Json :=
   let corr := go == mine
   let lines := evs.filterMap (fun e => match e with | .line x => some x | _ => none)
   let sound := if go == "pass" then segmentable steps lines else true
+  -- the dangerous direction, step by step: the tool passed a session which, with every step ending
+  -- at the line that completes it (the tool's documented reading of the stream), has a step whose
+  -- expected output never came or whose forbidden output did
+  let noFalsePass := !(go == "pass" && mine == "fail")
   let feats : List String :=
     (if mine == "pass" then ["pass"] else ["fail"]) ++
     (if steps.any (fun s => s.outputs.any (·.inverted)) then ["inverted"] else []) ++
@@ -46,7 +50,7 @@ def handleExpect (j : Json) : Json :=
     (if evs.any (fun e => match e with | .noise => true | _ => false) then ["noise"] else []) ++
     (if decide (steps.length > 1) then ["multiStep"] else []) ++
     (match v with | .fail w => ["fail:" ++ w] | _ => [])
-  Json.mkObj [("corr", corr), ("prop", boolsJson [("verdictSound", sound)]), ("model", .str mine),
+  Json.mkObj [("corr", corr), ("prop", boolsJson [("verdictSound", sound), ("noFalsePass", noFalsePass)]), ("model", .str mine),
               ("feat", jstrs feats), ("nontrivial", decide (lines.length > 0)),
               ("key", (Json.mkObj [("steps", (getObj? j "steps").getD .null), ("lines", (getObj? j "lines").getD .null),
                                    ("end", (getObj? j "end").getD .null)]).compress)]
